@@ -139,7 +139,7 @@ def check(ctx):
     lines, pending = [], []
     for cfg, data, name in corpus_cases():
         one_stream(ctx, rng, cfg, data, "corpus:" + name, lines, pending)
-    n_streams = 260 if ctx.quick else 6000
+    n_streams = 1000 if ctx.quick else 12000
     for i in range(n_streams):
         mode = rng.random()
         response = mode < 0.35
